@@ -23,6 +23,11 @@ pub enum Op {
     ModuleColor([u8; 4]),
     Background([u8; 4]),
     Image(String),
+    ImageBackground([u8; 4]),
+    Frame(usize),
+    ImageSize(f64),
+    ImageGap(f64),
+    ImagePosition(f64, f64),
 }
 
 impl Op {
@@ -46,6 +51,21 @@ impl Op {
             Op::Image(s) => {
                 b.image(s.clone());
             }
+            Op::ImageBackground(c) => {
+                b.image_background_color(*c);
+            }
+            Op::Frame(f) => {
+                b.image_background_shape(svgcheck::FRAMES[*f]);
+            }
+            Op::ImageSize(x) => {
+                b.image_size(*x);
+            }
+            Op::ImageGap(x) => {
+                b.image_gap(*x);
+            }
+            Op::ImagePosition(x, y) => {
+                b.image_position(*x, *y);
+            }
         }
     }
     pub fn apply_model(&self, m: &mut SvgModel) {
@@ -56,6 +76,11 @@ impl Op {
             Op::ModuleColor(c) => m.module_color = *c,
             Op::Background(c) => m.background = *c,
             Op::Image(s) => m.image = Some(s.clone()),
+            Op::ImageBackground(c) => m.image_background = *c,
+            Op::Frame(f) => m.frame = *f,
+            Op::ImageSize(x) => m.image_size = Some(*x),
+            Op::ImageGap(x) => m.image_gap = Some(*x),
+            Op::ImagePosition(x, y) => m.image_position = Some((*x, *y)),
         }
     }
     pub fn to_json(&self) -> Value {
@@ -66,6 +91,11 @@ impl Op {
             Op::ModuleColor(c) => json!({"op": "module_color", "color": c}),
             Op::Background(c) => json!({"op": "background_color", "color": c}),
             Op::Image(s) => json!({"op": "image", "image": s}),
+            Op::ImageBackground(c) => json!({"op": "image_background_color", "color": c}),
+            Op::Frame(f) => json!({"op": "image_background_shape", "shape": f}),
+            Op::ImageSize(x) => json!({"op": "image_size", "x": x}),
+            Op::ImageGap(x) => json!({"op": "image_gap", "x": x}),
+            Op::ImagePosition(x, y) => json!({"op": "image_position", "x": x, "y": y}),
         }
     }
     pub fn from_json(v: &Value) -> Option<Op> {
@@ -80,6 +110,11 @@ impl Op {
             "module_color" => Op::ModuleColor(col(v.get("color")?)?),
             "background_color" => Op::Background(col(v.get("color")?)?),
             "image" => Op::Image(v.get("image")?.as_str()?.to_string()),
+            "image_background_color" => Op::ImageBackground(col(v.get("color")?)?),
+            "image_background_shape" => Op::Frame(v.get("shape")?.as_u64()? as usize),
+            "image_size" => Op::ImageSize(v.get("x")?.as_f64()?),
+            "image_gap" => Op::ImageGap(v.get("x")?.as_f64()?),
+            "image_position" => Op::ImagePosition(v.get("x")?.as_f64()?, v.get("y")?.as_f64()?),
             _ => return None,
         })
     }
@@ -100,6 +135,11 @@ pub fn alphabet() -> Vec<Op> {
     a.push(Op::ModuleColor([0, 128, 0, 255]));
     a.push(Op::Background([255, 255, 0, 0]));
     a.push(Op::Image("https://example.com/logo.png?a=1&b=<2>\"'".to_string()));
+    a.push(Op::ImageBackground([0, 0, 255, 64]));
+    a.push(Op::Frame(1));
+    a.push(Op::ImageSize(5.0));
+    a.push(Op::ImageGap(0.5));
+    a.push(Op::ImagePosition(10.0, 10.5));
     a
 }
 
@@ -209,7 +249,7 @@ fn colour_routes(c: [u8; 4]) -> Vec<String> {
 
 pub fn run(ctx: &Ctx) -> Collector {
     let col = Collector::new("C12", "model_checking");
-    col.set_rule("E2: breadth-first search over ALL SvgBuilder programs up to depth D (quick 3, thorough 4) over a 25-operation alphabet {shape x6, shape_color x6x2, margin x4, module_color, background_color, image(with & < > \" ')}; model state = (layer list, margin, module colour, background, image) hashed and counted; every program (path) is replayed on a fresh real SvgBuilder and rendered on a v1 and a v2 symbol; oracle: own strict XML parser accepts the document; square viewBox/background of side size+2*margin in the background colour; one <path> per layer in order with the layer's colour; own path interpreter puts the sub-paths in bijection with the dark modules (centre inside the unit cell anchored at (col+margin,row+margin), box within the cell grown by 0.1, none on light modules or quiet zone); one <image> whose entity-decoded href equals the configured string. Sweeps: 40 versions x 6 shapes x 4 margins; colour formatting (all 4x256 single-channel values and the 8^4 edge grid through every conversion route); image strings: all 820 strings of length <= 3 over {a & < > \" ' space ; #} + realistic URLs/data URIs/paths; non-trivial = a document was rendered; distinct = distinct documents");
+    col.set_rule("E2: breadth-first search over ALL SvgBuilder programs up to depth D (quick 3, thorough 4) over a 30-operation alphabet {shape x6, shape_color x6x2, margin x4, module_color, background_color, image(with & < > \" '), image_background_color, image_background_shape, image_size, image_gap, image_position}; model state = (layer list, margin, module colour, background, image) hashed and counted; every program (path) is replayed on a fresh real SvgBuilder and rendered on a v1 and a v2 symbol; oracle: own strict XML parser accepts the document; square viewBox/background of side size+2*margin in the background colour; one <path> per layer in order with the layer's colour; own path interpreter puts the sub-paths in bijection with the dark modules (centre inside the unit cell anchored at (col+margin,row+margin), box within the cell grown by 0.1, none on light modules or quiet zone); one <image> whose entity-decoded href equals the configured string. Sweeps: 40 versions x 6 shapes x 4 margins; colour formatting (all 4x256 single-channel values and the 8^4 edge grid through every conversion route); image strings: all 820 strings of length <= 3 over {a & < > \" ' space ; #} + realistic URLs/data URIs/paths; non-trivial = a document was rendered; distinct = distinct documents");
     col.assume("custom Shape::Command callbacks and colours given as arbitrary strings are outside the quantifier as written; not explored");
     col.assume("geometry is judged on bounding boxes of flattened sub-paths (own interpreter), not on path syntax or emission order");
     let thorough = ctx.tier.thorough();
